@@ -261,9 +261,28 @@ def enumerated_programs():
         'subcall-empty': [dict(k='var', ref=dict(r='expr', e=dict(
             e='raw', s='ta((), _)')), opts=[])],
     }
+    def _in(opts, b, in_else=False):
+        o = [[x, None] if '=' not in x else x.split('=') for x in opts.split()]
+        if in_else:
+            return dict(k='in', ref=dict(r='name', n='s2'), opts=o,
+                        body=[dict(k='text', s='link')], **{'else': b})
+        return dict(k='in', ref=dict(r='name', n='s2'), opts=o, body=b,
+                    **{'else': None})
+    # the batching renderer and its link forms: the else part of a
+    # previous / next form without such a batch, bodies of batches
+    extra = {
+        'in-previous-else': lambda b: _in('previous size=1 start=1', b, True),
+        'in-next-else': lambda b: _in('next size=5', b, True),
+        'in-batch': lambda b: _in('size=1 start=1 orphan=0', b),
+        'in-batch-overlap': lambda b: _in('size=2 start=2 overlap=1', b),
+    }
+    BLOCKS = dict(BLOCKS, **extra)
     kinds = sorted(BLOCKS)
+    few = ('let', 'in', 'with', 'try-finally', 'in-next-else')
     for i, outer in enumerate(kinds):
         for j, inner in enumerate(kinds):
+            if outer in extra and inner not in few:
+                continue
             for k, (an, act) in enumerate(sorted(actions.items())):
                 if (i + j + k) % 2:
                     continue            # half of the product, evenly spread
